@@ -7,13 +7,15 @@ A  TLC enumerates the product (Mode=conf) and the transport URIs (Mode=face); th
    statement are invariants on the layered (implementation-shaped) reference; Witnesses = vacuity.
 B  spec -> code: every enumerated state is materialised - candidate files with present / absent /
    commented keys or written as a 0-byte / whitespace-and-comments-only file, NDN_CLIENT_* variables, store directories of every location class, a Platform
+   (candidates that exist but are not readable files are materialised as DIRECTORIES of that name; variables are unset /
+   set / set to the empty string; keys may be written "key=" with no value)
    subclass whose ordered path lists point into the scratch tree - then read_client_conf,
    default_keychain and default_face are called and their projection is compared with the state's `out`.
    Platform selection runs through the library's own dispatch (singleton not pre-injected) for sys.platform = linux /
    unsupported, and the Linux default transport with the new / old NFD socket path existing or not (kind "plat").
    The real Linux platform lists are compared with their documented values under a patched HOME.
-C  code -> spec: random larger configurations (up to 6 candidate files, any existence subset, independent
-   key states and location classes, several default locations, file syntax variants) and random transport
+C  code -> spec: random larger configurations (up to 6 candidate files, any existence subset, each a file or a
+   directory, variables unset / set / empty, independent key states (incl. empty values) and location classes, several default locations, file syntax variants) and random transport
    URIs; the recorded observations are judged by TLC (ClientConfJudge).
 """
 import json, os, shutil, tempfile, time
@@ -25,7 +27,25 @@ STORES = ('pib', 'tpm')
 VALID = {'pib': 'pib-sqlite3', 'tpm': 'tpm-file'}
 ENVVAR = {s: 'NDN_CLIENT_' + s.upper() for s in SETTINGS}
 INVS = ['I_Precedence', 'I_FirstFile', 'I_AsGiven', 'I_NextToFile', 'I_FallBack', 'I_Determined', 'I_Content', 'I_Values',
-        'I_Plat', 'I_Face']
+        'I_Empty', 'I_Unreadable', 'I_Plat', 'I_Face']
+EMPTY = {'k': 'empty', 'i': 0}          # the value used is the empty string (ClientConf: Src("empty", 0))
+
+
+def norm_cfg(c):
+    """configuration in the current vocabulary (replay objects written before the kind / empty dimensions existed)"""
+    c = dict(c)
+    c['env'] = {s: ('set' if v is True else 'unset' if v is False else v) for s, v in c['env'].items()}
+    c.setdefault('kind', ['file'] * c['n'])
+    return c
+
+
+def first_existing(c):
+    return min(c['exist']) if c['exist'] else 0
+
+
+def unreadable_first(c):
+    f = first_existing(c)
+    return bool(f) and c['kind'][f - 1] == 'dir'
 JUDGE_CFG = 'ClientConfJudge.cfg'
 
 
@@ -123,10 +143,11 @@ class World:
 
     def sources(self, c, s):
         out = []
-        if c['env'][s]:
+        """the sources that carry a (non-empty, recognisable) value for setting s"""
+        if c['env'][s] == 'set':
             out.append({'k': 'env', 'i': 0})
         for i in sorted(c['exist']):
-            if c['key'][i - 1][s] == 'present':
+            if c['key'][i - 1][s] == 'present' and c['kind'][i - 1] == 'file':
                 out.append({'k': 'file', 'i': i})
         return out
 
@@ -168,13 +189,20 @@ class World:
                     if other != first:
                         self.mkstore(s, os.path.join(os.path.dirname(self.cand[other - 1]), g))
         for i in exist:
+            if c['kind'][i - 1] == 'dir':
+                # exists, but open() fails (EISDIR): the portable "exists and cannot be read" (we run as root, so
+                # mode 000 would not stop open())
+                os.makedirs(self.cand[i - 1], exist_ok=True)
+                continue
             os.makedirs(os.path.dirname(self.cand[i - 1]), exist_ok=True)
             with open(self.cand[i - 1], 'w') as f:
                 f.write(self.file_text(c, i, style))
         for s in SETTINGS:
-            if c['env'][s]:
+            if c['env'][s] == 'set':
                 src = {'k': 'env', 'i': 0}
                 os.environ[ENVVAR[s]] = self.transport_value(src) if s == 'transport' else self.store_value(s, src, c['loc'][s])
+            elif c['env'][s] == 'empty':
+                os.environ[ENVVAR[s]] = ''                  # present, and empty
             else:
                 os.environ.pop(ENVVAR[s], None)
 
@@ -194,6 +222,8 @@ class World:
                 continue
             src = {'k': 'file', 'i': i}
             val = self.transport_value(src) if s == 'transport' else self.store_value(s, src, c['loc'][s])
+            if state == 'emptyval':
+                val = ''                                    # "key=": the key is in the file, its value is empty
             eq = st.get('eq', '=')
             line = '%s%s%s' % (s, eq, val)
             if state == 'commented':
@@ -214,12 +244,16 @@ class World:
         from ndn.transport.udp_face import UdpFace
         try:
             res = cc.read_client_conf()
+        except OSError as e:
+            # a refusal the reference knows (ClientConf: Refused); whether it is the expected outcome is the spec's call
+            return {'err': 'oserror'}, 'read_client_conf raised %s: %s' % (type(e).__name__, e), type(e).__name__
         except Exception as e:  # noqa
-            return None, 'read_client_conf raised %s: %s' % (type(e).__name__, e), type(e).__name__
+            return {'err': 'raised-' + type(e).__name__}, 'read_client_conf raised %s: %s' % (type(e).__name__, e), type(e).__name__
         if not isinstance(res, dict) or set(res) != set(SETTINGS):
-            return None, 'read_client_conf returned %r' % (res,), 'shape'
-        obs = {}
+            return {'err': 'raised-shape'}, 'read_client_conf returned %r' % (res,), 'shape'
+        obs = {'err': 'none'}
         tv = {self.transport_value(src): src for src in self.sources(c, 'transport') + [{'k': 'def', 'i': 0}]}
+        tv[''] = EMPTY
         obs['transport'] = tv.get(res['transport'], {'k': 'other', 'i': 0})
         first = min(c['exist']) if c['exist'] else 0
         locs = {}
@@ -232,7 +266,9 @@ class World:
             marked = [src for src in cands if src['k'] != 'def' and c['loc'][s] != 'none'
                       and os.path.basename(loc) in (self.store_name(s, src), 'c:' + self.store_name(s, src),
                                                     'rel-' + self.store_name(s, src))]
-            if len(marked) == 1:
+            if scheme == '':
+                src = EMPTY                             # the value used was the empty string: no scheme at all
+            elif len(marked) == 1:
                 src = marked[0]
             elif len(cands) == 1:
                 src = cands[0]
@@ -317,6 +353,10 @@ def render_uri(u):
 def compare(out, obs):
     """spec state `out` (from the dump) vs observation: list of differing clauses"""
     bad = []
+    if obs['err'] != out['err']:
+        return ['refusal']
+    if out['err'] != 'none':
+        return []
     if obs['transport'] != out['transport']:
         bad.append('transport')
     for s in STORES:
@@ -333,6 +373,15 @@ def compare(out, obs):
 
 def classify(c):
     """input class for signatures"""
+    f = first_existing(c)
+    if unreadable_first(c):
+        return 'first-candidate-unreadable'
+    if any(v == 'empty' for v in c['env'].values()):
+        return 'empty-override'
+    if f and any(v == 'emptyval' for v in c['key'][f - 1].values()):
+        return 'empty-file-value'
+    if any(c['kind'][i - 1] == 'dir' for i in c['exist']):
+        return 'later-candidate-unreadable'
     if c.get('val') == 'pct' and c['exist'] and any(v == 'present' for v in c['key'][min(c['exist']) - 1].values()):
         return 'percent-in-file-value'
     if c.get('val', 'plain') != 'plain':
@@ -460,8 +509,12 @@ LOC_C = ['none', 'absE', 'absM', 'relE', 'relM', 'relCwd', 'relOther', 'absEc']
 def rand_config(rng):
     n = rng.randint(1, 6)
     exist = sorted(i for i in range(1, n + 1) if rng.random() < rng.choice([0.2, 0.5, 0.8]))
-    key = [{s: rng.choice(['present', 'absent', 'commented']) for s in SETTINGS} for _ in range(n)]
-    env = {s: rng.random() < 0.35 for s in SETTINGS}
+    key = [{s: rng.choice(['present', 'present', 'absent', 'absent', 'commented', 'commented', 'emptyval']) for s in SETTINGS}
+           for _ in range(n)]
+    env = {s: rng.choice(['unset'] * 13 + ['set'] * 5 + ['empty'] * 2) for s in SETTINGS}
+    # every candidate is a regular file or something that exists and cannot be read as one (a directory)
+    pdir = rng.choice([0.0, 0.0, 0.1, 0.3])
+    kind = ['dir' if rng.random() < pdir else 'file' for _ in range(n)]
     loc = {s: rng.choice(LOC_C[:7]) if rng.random() < 0.93 else 'absEc' for s in STORES}
     defx = {s: [rng.random() < 0.5 for _ in range(rng.randint(1, 3))] for s in STORES}
     body = []
@@ -469,7 +522,7 @@ def rand_config(rng):
         opts = ['plain', 'plain']
         if all(v == 'absent' for v in key[i].values()):
             opts += ['empty', 'empty', 'blank']
-        if all(v != 'present' for v in key[i].values()):
+        if all(v not in ('present', 'emptyval') for v in key[i].values()):
             opts += ['blank', 'blank']
         body.append(rng.choice(opts))
     if exist and rng.random() < 0.25:
@@ -478,7 +531,16 @@ def rand_config(rng):
         key[f - 1] = {s: rng.choice(['absent', 'absent', 'commented']) for s in SETTINGS}
         body[f - 1] = rng.choice(['empty', 'blank']) if all(v == 'absent' for v in key[f - 1].values()) else 'blank'
     val = rng.choice(['plain'] * 15 + ['pct', 'pct', 'punct', 'punct', 'foreigntpm'])
-    return {'n': n, 'exist': exist, 'key': key, 'body': body, 'env': env, 'loc': loc, 'defx': defx, 'val': val}
+    if len(exist) >= 2 and rng.random() < 0.06:
+        # "the first existing candidate is unreadable, a later one is a regular file with values" deserves weight
+        kind[exist[0] - 1], kind[exist[1] - 1] = 'dir', 'file'
+        key[exist[1] - 1] = {s: 'present' for s in SETTINGS}
+        body[exist[1] - 1] = 'plain'
+    for i in range(n):
+        if kind[i] == 'dir':            # a directory has no content
+            key[i] = {s: 'absent' for s in SETTINGS}
+            body[i] = 'plain'
+    return {'n': n, 'exist': exist, 'kind': kind, 'key': key, 'body': body, 'env': env, 'loc': loc, 'defx': defx, 'val': val}
 
 
 def rand_style(rng):
@@ -519,19 +581,21 @@ def rand_uri(rng):
 
 def tojson_cfg(x):
     """state variable x of ClientConfMC (via dump) -> configuration dict used by World"""
-    return {'n': x['n'], 'exist': sorted(x['exist']), 'key': x['key'], 'body': x['body'], 'env': x['env'],
+    return {'n': x['n'], 'exist': sorted(x['exist']), 'kind': list(x['kind']), 'key': x['key'], 'body': x['body'], 'env': x['env'],
             'loc': x['loc'], 'defx': x['defx'], 'val': x['val']}
 
 
 def nontrivial(c):
-    return bool(c['exist']) and (any(c['env'].values()) or any(v != 'present' for v in c['key'][min(c['exist']) - 1].values()))
+    return bool(c['exist']) and (any(v != 'unset' for v in c['env'].values()) or c['kind'][min(c['exist']) - 1] == 'dir'
+                                 or any(v != 'present' for v in c['key'][min(c['exist']) - 1].values()))
 
 
 def run(ctx):
     ctx.rule = ('one TLC state per configuration / transport URI; B materialises every state in a scratch tree and calls '
                 'read_client_conf, default_keychain, default_face; C = random larger configurations judged by TLC. '
-                'non-trivial = distinct configuration with an existing file and at least one of: environment override, '
-                'a key absent or commented in the first existing file')
+                'non-trivial = distinct configuration with an existing candidate and at least one of: environment override '
+                '(set or empty), a key absent / commented / empty-valued in the first existing file, first existing '
+                'candidate not a readable file')
     ctx.assumptions = ['the Platform singleton may be replaced by a subclass of the Linux platform whose path lists point '
                        'into a scratch tree (the code under test only calls Platform() methods)',
                        'macOS / Windows platform classes are not importable here and are not checked']
@@ -555,6 +619,7 @@ def run(ctx):
         from ndn import client_conf as cc
         if 'B' in ctx.stages:
             nb = nf = npl = 0
+            dims = {'unreadable-first': 0, 'unreadable-later': 0, 'empty-override': 0, 'empty-file-value': 0}
             for st in urikit.read_dump(dump, ('kind', 'x', 'out')):
                 if st['kind'] == 'plat':
                     replay_plat(ctx, world, st['x'], st['out'])
@@ -582,12 +647,12 @@ def run(ctx):
                     ctx.nt(c)
                 if nb == 4000:
                     ctx.sample({'kind': 'B-conf', 'c': c, 'result': world.anon(res), 'observation': obs})
-                if obs is None:
-                    ctx.violation('C20/read_client_conf/%s/raises-%s' % (classify(c), exc), 'B: %s for %s' % (res, json.dumps(c)),
-                                  {'kind': 'conf', 'c': c})
-                    continue
+                dims['unreadable-first'] += unreadable_first(c)
+                dims['unreadable-later'] += any(c['kind'][i - 1] == 'dir' for i in c['exist']) and not unreadable_first(c)
+                dims['empty-override'] += 'empty' in c['env'].values()
+                dims['empty-file-value'] += any('emptyval' in k.values() for k in c['key'])
                 for cl in compare(out, obs):
-                    ctx.violation('C20/%s/%s/%s' % (fn_of(cl), classify(c), cl),
+                    ctx.violation(sig_of(cl, c, exc),
                                   'B: clause %s: library %s -> observation %s, reference %s; configuration %s' % (
                                       cl, json.dumps(res), json.dumps(obs), json.dumps(out), json.dumps(c)),
                                   {'kind': 'conf', 'c': c})
@@ -598,6 +663,9 @@ def run(ctx):
             ctx.note('B: %d configurations materialised and resolved, %d transport URIs (t=%.0fs)' % (nb, nf, time.time() - t0))
             if not nb or not nf:
                 raise tlc.MachineryError('no states in the TLC dump')
+            ctx.note('B: of these ' + ', '.join('%d %s' % (v, k) for k, v in dims.items()))
+            if not all(dims.values()):
+                raise tlc.MachineryError('a dimension of the configuration product is not in the TLC dump: %r' % dims)
         if 'C' in ctx.stages:
             rng = ctx.rng
             recs, meta = [], []
@@ -609,18 +677,14 @@ def run(ctx):
                 ctx.evaluations += 3
                 if nontrivial(c):
                     ctx.nt(c)
-                if obs is None:
-                    ctx.violation('C20/read_client_conf/%s/raises-%s' % (classify(c), exc), 'C: %s for %s' % (res, json.dumps(c)),
-                                  {'kind': 'conf', 'c': c, 'style': style})
-                    ctx.traces += 1
-                    continue
                 recs.append({'k': 'conf', 'c': c, 'obs': obs})
-                meta.append((res, style))
-            ctx.sample({'kind': 'C-conf', 'c': recs[0]['c'], 'result': world.anon(meta[0][0]), 'observation': recs[0]['obs']})
+                meta.append((res, style, exc))
+            k0 = next((k for k, r in enumerate(recs) if r['obs']['err'] == 'none'), 0)
+            ctx.sample({'kind': 'C-conf', 'c': recs[k0]['c'], 'result': world.anon(meta[k0][0]), 'observation': recs[k0]['obs']})
             for _ in range(ctx.pick(600, 6000)):
                 u = rand_uri(rng)
                 recs.append({'k': 'face', 'u': u, 'obs': face_obs(cc, render_uri(u))})
-                meta.append((render_uri(u), None))
+                meta.append((render_uri(u), None, None))
                 ctx.nt(['face', render_uri(u)])
             results, rejected = urikit.judge_batches('ClientConfJudge', JUDGE_CFG, 'c20-c-%s' % ctx.tier, recs,
                                                      ctx.pick(4000, 6000), ctx.pick(2, 6))
@@ -632,7 +696,7 @@ def run(ctx):
                 rec = recs[i]
                 for cl in rejected[i]:
                     if rec['k'] == 'conf':
-                        ctx.violation('C20/%s/%s/%s' % (fn_of(cl), classify(rec['c']), cl),
+                        ctx.violation(sig_of(cl, rec['c'], meta[i][2]),
                                       'C: reference rejects clause %s: library %s -> observation %s; configuration %s' % (
                                           cl, json.dumps(meta[i][0]), json.dumps(rec['obs']), json.dumps(rec['c'])),
                                       {'kind': 'conf', 'c': rec['c'], 'style': meta[i][1]})
@@ -645,6 +709,14 @@ def run(ctx):
         for p in runs.values():
             if os.path.exists(p):
                 os.remove(p)
+
+
+def sig_of(clause, c, exc):
+    """violation signature for a failing clause of a configuration; exc = class name of what read_client_conf raised"""
+    if clause == 'refusal':
+        # raised where the reference resolves values / returned values where the reference refuses
+        return 'C20/read_client_conf/%s/%s' % (classify(c), 'raises-%s' % exc if exc else 'refusal')
+    return 'C20/%s/%s/%s' % (fn_of(clause), classify(c), clause)
 
 
 def fn_of(clause):
@@ -684,14 +756,13 @@ def replay(ctx, path):
             rec = {'k': 'face', 'u': obj['u'], 'obs': face_obs(cc, render_uri(obj['u']))}
             print('default_face(%r) -> %s' % (render_uri(obj['u']), json.dumps(rec['obs'])))
         else:
-            world.materialise(obj['c'], obj.get('style'))
-            obs, res, exc = world.observe(obj['c'])
-            print('configuration: %s' % json.dumps(obj['c']))
-            print('read_client_conf -> %s' % (json.dumps(res) if obs is not None else res))
-            if obs is None:
-                return 1
+            c = norm_cfg(obj['c'])
+            world.materialise(c, obj.get('style'))
+            obs, res, exc = world.observe(c)
+            print('configuration: %s' % json.dumps(c))
+            print('read_client_conf -> %s' % (json.dumps(res) if obs['err'] == 'none' else res))
             print('observation: %s' % json.dumps(obs))
-            rec = {'k': 'conf', 'c': obj['c'], 'obs': obs}
+            rec = {'k': 'conf', 'c': c, 'obs': obs}
         results, rejected = urikit.judge_batches('ClientConfJudge', JUDGE_CFG, 'c20-replay', [rec], 10, 1)
         print('rejected clauses: %s' % rejected[0] if rejected else 'accepted by the reference')
         return 1 if rejected else 0
